@@ -24,8 +24,8 @@ def baseline_ok(out):
     return passed >= 88 and failed == 6, passed, failed
 def run_demo(cwd, mdir=None):
     if mdir and os.path.exists(f"{mdir}/demo.sh"):
-        rc, out = run(f"sh {mdir}/demo.sh 2>&1 | tail -30; exit ${{PIPESTATUS[0]}}", cwd)
-        rc, out = run(f"bash -c 'sh {mdir}/demo.sh > /tmp/demo_sh.out 2>&1; echo EXIT=$?'", cwd)
+        
+        rc, out = run(f"bash -c 'bash {mdir}/demo.sh > /tmp/demo_sh.out 2>&1; echo EXIT=$?'", cwd)
         full = open('/tmp/demo_sh.out', errors='replace').read()
         ok = "EXIT=0" in out and "test result: ok" in full and "FAILED" not in full
         return ok, full[-1500:]
